@@ -849,7 +849,60 @@ class Exec:
             self._bind_derived(derived, entry, loop_end(eff))
         return True
 
+    def _peel_first(self, node):
+        """for (T v = LO; v < hi; ++v, ...) { P; if (v == LO) { A; continue; } R }  with a literal LO and P free of jumps:
+        the first iteration is special-cased inside the loop.  -> (the statement `if (cond) { P; A; inc }` for v = LO, the loop
+        `for (T v = LO+1; ...) { P; R }`), or None.  After it, variables stepped only in R (a noise pointer that is not advanced
+        for the row that needs no noise) have a constant step per iteration again."""
+        init, cond, inc, body = node.get("init"), node.get("c"), node.get("inc"), node.get("body")
+        if not (isinstance(init, dict) and init.get("k") == "decl" and len(init.get("d", [])) == 1 and isinstance(body, dict) and body.get("k") == "block"
+                and isinstance(inc, dict) and isinstance(cond, dict)):
+            return None
+        dv = init["d"][0]
+        i0 = dv.get("init")
+        if not (dv.get("k") == "var" and isinstance(i0, dict) and i0.get("k") == "int"):
+            return None
+        vid, lo = dv.get("id"), int(i0["v"])
+        is_v = lambda e_: isinstance(e_, dict) and (e_.get("k") == "ref" and e_.get("id") == vid or
+                                                    e_.get("k") == "cast" and e_.get("implicit") and is_v(e_.get("a")))
+        if not (cond.get("k") == "bin" and cond.get("op") in ("<", "<=", "!=") and is_v(cond.get("a"))):
+            return None
+        if not any(n_.get("k") == "un" and n_.get("op") == "++" and is_v(n_.get("a")) for n_ in walk(inc)) or \
+                any(n_.get("k") in ("assign", "un") and n_.get("op") in ("=", "+=", "-=", "--") and is_v(n_.get("a")) for n_ in walk(inc)):
+            return None
+        ss = body["s"]
+        for q, st_ in enumerate(ss):
+            if st_.get("k") != "if":
+                if any(n_.get("k") in ("continue", "break", "return", "goto", "for", "while", "do", "switch") for n_ in walk(st_)):
+                    return None
+                continue
+            c_ = st_.get("c")
+            then = st_.get("then")
+            if st_.get("else") is not None or not (isinstance(c_, dict) and c_.get("k") == "bin" and c_.get("op") == "=="):
+                return None
+            a_, b_ = c_.get("a"), c_.get("b")
+            lit = b_ if is_v(a_) else a_ if is_v(b_) else None
+            if not (isinstance(lit, dict) and lit.get("k") == "int" and int(lit["v"]) == lo):
+                return None
+            ts = then["s"] if isinstance(then, dict) and then.get("k") == "block" else [then]
+            if not ts or ts[-1].get("k") != "continue" or any(n_.get("k") in ("continue", "break", "return", "goto") for t_ in ts[:-1] for n_ in walk(t_)):
+                return None
+            # the induction variable must not be assigned in the body
+            if any(n_.get("k") in ("assign", "un") and n_.get("op") in ("=", "+=", "-=", "++", "--") and is_v(n_.get("a")) for n_ in walk(body)):
+                return None
+            peeled = {"k": "if", "c": cond, "then": {"k": "block", "s": list(ss[:q]) + list(ts[:-1]) + [inc], "l": node["l"]}, "l": node["l"]}
+            dv2 = dict(dv, init=dict(i0, v=str(lo + 1)))
+            rest = dict(node, init=dict(init, d=[dv2]), body=dict(body, s=list(ss[:q]) + list(ss[q + 1:])))
+            return peeled, rest
+        return None
+
     def do_for(self, node, out):
+        pf = self._peel_first(node) if not getattr(self, "unroll", False) else None
+        if pf is not None:
+            peeled, rest = pf
+            self.block(node["init"], out)
+            self.block(peeled, out)
+            return self.do_for(rest, out)
         init, cond, inc, body = node.get("init"), node.get("c"), node.get("inc"), node.get("body")
         if inc is None and cond is not None and cond.get("k") == "bin" and (init is None or init.get("k") in ("decl", "assign")) and \
                 any(isinstance(cond.get(sd), dict) and cond[sd].get("k") == "un" and cond[sd].get("op") in ("++", "--") for sd in ("a", "b")):
